@@ -151,7 +151,7 @@ func (c c16Call) run(pool []geojson.Object) string {
 	return spec.fn(pool[c.Recv], arg)
 }
 
-var c16Unary = []string{"JSON", "Rect", "ForEach", "Abandoned", "Reentrant", "Spatial.Within*", "Collection", "BaseSeries", "Circle", "Center", "NumPoints", "Spatial.Intersects*", "Valid"}
+var c16Unary = []string{"JSON", "Rect", "ForEach", "Abandoned", "Reentrant", "AllMethods", "Spatial.Within*", "Collection", "BaseSeries", "Circle", "Center", "NumPoints", "Spatial.Intersects*", "Valid"}
 var c16Binary = []string{"Contains", "Within", "Intersects", "Distance"}
 var c16Args = []int{4, 7, 11, 0, 5, 10}
 
@@ -160,13 +160,16 @@ var c16Args = []int{4, 7, 11, 0, 5, 10}
 var c16BigArgs = []int{18}
 
 func c16Calls(npool int, thorough bool) []c16Call {
-	un, ar := c16Unary[:9], c16Args[:3]
+	un, ar := c16Unary[:10], c16Args[:3]
 	if thorough {
 		un, ar = c16Unary, c16Args
 	}
 	var out []c16Call
 	for r := 0; r < npool; r++ {
 		for _, m := range un {
+			if m == "AllMethods" && !(r == 0 || r == 5 || r == 7 || r == 11 || r == 12) {
+				continue // one object of each family of types: point, indexed polygon, circle, collection, feature
+			}
 			if r >= 15 && !(m == "Collection" && r == 16) && !(m == "Rect" && r <= 17) {
 				continue // big objects: only cheap unary calls
 			}
